@@ -480,7 +480,7 @@ package controller
 //@   ensures [C05] (cpuPercent == MAXF || memPercent == MAXF) && (milli(nodeGroup.cpuCapacity) == 0 || milli(nodeGroup.memCapacity) == 0) ==> delta == 1 && err == nil
 //@   ensures [C05] (cpuPercent == MAXF || memPercent == MAXF) && milli(nodeGroup.cpuCapacity) != 0 && milli(nodeGroup.memCapacity) != 0 ==> delta == trunc(max(ceil(real(milli(cpuRequest)) / real(milli(nodeGroup.cpuCapacity)) / real(nodeGroup.Opts.ScaleUpThresholdPercent) * 100.0), ceil(real(milli(memRequest)) / real(milli(nodeGroup.memCapacity)) / real(nodeGroup.Opts.ScaleUpThresholdPercent) * 100.0)))
 //@   ensures [C05] cpuPercent != MAXF && memPercent != MAXF ==> delta == trunc(max(ceil(real(len(allNodes)) * ((cpuPercent - real(nodeGroup.Opts.ScaleUpThresholdPercent)) / real(nodeGroup.Opts.ScaleUpThresholdPercent))), ceil(real(len(allNodes)) * ((memPercent - real(nodeGroup.Opts.ScaleUpThresholdPercent)) / real(nodeGroup.Opts.ScaleUpThresholdPercent)))))
-//@   ensures [C05] err != nil <==> delta < 0
+//@   ensures [C05,C06] err != nil <==> delta < 0
 
 // C05 as arithmetic (over the reals): with n >= 1 equal nodes, threshold T >= 1, utilisations pc, pm
 // (percent of current capacity) and d as calcScaleUpDelta computes it, n + d nodes bring both
